@@ -1223,6 +1223,10 @@ structure GoodEntry (e : Entry) : Prop where
   route_colon : ':' ∉ e.route
   id_slash : '/' ∉ e.id
 
+instance (e : Entry) : Decidable (GoodEntry e) :=
+  decidable_of_iff ('/' ∉ e.name ∧ '`' ∉ e.name ∧ e.name ≠ [] ∧ ':' ∉ e.route ∧ '/' ∉ e.id)
+    ⟨fun ⟨a, b, c, d, f⟩ => ⟨a, b, c, d, f⟩, fun ⟨a, b, c, d, f⟩ => ⟨a, b, c, d, f⟩⟩
+
 /-- the path item `openapi_bulk` builds at `route/{id}` -/
 def bulkItem (e : Entry) : Dict :=
   (if e.crud.contains 'R' then [(c!"get", templatePayload .read e.name)] else []) ++
